@@ -12,7 +12,7 @@ import (
 func init() {
 	propertyRules["C15"] = []ruleFn{ruleTimestamp, rulePool, ruleRequestArgs, ruleProposalFields, ruleCacheObl, ruleViewResetCover}
 	propertyExplain["C15"] = "A-TIMESTAMP: on every non-declining path of the proposal builder the stored Timestamp is max(lastBlockTimestamp + TimestampIncrement, T) — decided semantically from the path conditions and the symbolic final value — where T is the result of the truncation function, whose normal form is (UnixNano(Timer.Now()) div I)·I with I = TimestampIncrement; lastBlockTimestamp comes only from the initialiser's parameter. P-POOL: hashes and transactions are copied from the pool result index by index. P-REQUEST-ARGS: NewPrepareRequest(Timestamp, Nonce, TransactionHashes). O-PROPOSAL/L2-OBL: the primary's own block is built from the same fields and header caches are dropped on every epoch write. Sanity of the clock and nonce uniqueness are not decided."
-	propertyRules["C16"] = []ruleFn{ruleOptionalCB, ruleSubscribeOwner, ruleDeclinePure, ruleNoIdleCV, ruleForce, ruleRearm, ruleTimerOwner}
+	propertyRules["C16"] = []ruleFn{ruleViewResetCover, ruleOptionalCB, ruleSubscribeOwner, ruleDeclinePure, ruleNoIdleCV, ruleForce, ruleRearm, ruleTimerOwner}
 	propertyExplain["C16"] = "Structural clauses only: the subscription callback and MaxTimePerBlock are called only when the extension is configured; one subscription wrapper sets the flag, which is cleared by every request send, forced timeout and epoch write; a declining proposal builder has no effect; the timeout handler's ChangeView is not reachable for an idle backup on its first view-0 timeout; OnNewTransaction forces the pending timeout only while subscribed with the timer's own epoch. Every timing clause (minimum spacing, 'only once the maximum elapsed', promptness) depends on numeric relations between durations and the clock and is not applicable to static analysis."
 	propertyRules["C09"] = []ruleFn{ruleRecoveryBuild, ruleRecoveryReplay, ruleLadder, ruleResponder, ruleRearm}
 	propertyExplain["C09"] = "Structural necessary conditions of recovery only: the recovery builder adds every stored preparation and last ChangeView, and the (pre)commits once the node has its own; the recovery handler consumes every payload getter of the RecoveryMessage interface and hands each element to OnReceive; LastChangeViewPayloads is refreshed on a view change; every admitted timeout path says something or is a deferral of the dynamic-block-time extension, and re-arms; a node with an own (pre)commit always answers a recovery request. Progress, bounds on the deciding view, partitions and restarts need multi-node timed executions: not applicable."
@@ -301,6 +301,80 @@ func ruleSubscribeOwner(c *RC) *RuleResult {
 	} else {
 		r.fail(w.Name+"/flag", c.Prog.Pos(w.Decl), "the subscription wrapper does not set txSubscriptionOn")
 	}
+	// the flag means "the application has been asked": every path of the wrapper that sets it makes the call (when the
+	// extension is configured)
+	r.Sites++
+	skipped := ""
+	for _, e := range c.exitsOf(w) {
+		if v, ok := e.F.value(mkAtom("b", fld("ctx.txSubscriptionOn", false), nil)); ok && v && !e.Events["cb:SubscribeForTxs"] {
+			if v2, ok2 := e.F.value(mkAtom("nn", fld("cfg.SubscribeForTxs", false), nil)); ok2 && !v2 {
+				continue // not configured
+			}
+			if v2, ok2 := e.F.value(mkAtom("nn", fld("cfg.MaxTimePerBlock", false), nil)); ok2 && !v2 {
+				continue
+			}
+			skipped = "{" + strings.Join(e.Trail, "; ") + "}"
+		}
+	}
+	if skipped == "" {
+		r.ok(w.Name + ": the flag is set only together with the SubscribeForTxs call")
+	} else {
+		r.fail(w.Name+"/flag-without-call", c.Prog.Pos(w.Decl), "the wrapper marks the node as subscribed without asking the application on path "+skipped+" (a later notification never comes, the node waits the maximum interval)")
+	}
+	// the node subscribes only while handling a timeout of its current epoch: every feasible call chain from an API entry
+	// to the wrapper passes through the timeout handler (a subscription made earlier — at initialisation, on a message —
+	// lets a notification force a proposal before the minimum block time has passed). Decided by demanding `false` at
+	// the wrapper's call sites: the demand must die out on infeasible paths (e.g. Start's forced proposal never
+	// declines) or reach the timeout handler.
+	if th := c.timeoutHandler(); th != nil {
+		inTH := c.A.cluster(th)
+		var sites []*Site
+		for _, cs := range c.A.callers[w] {
+			if inTH[cs.Fn] {
+				r.Sites++
+				r.ok(fmt.Sprintf("%s@%s subscribes while handling a timeout", cs.Fn.Name, c.Prog.Pos(cs.Node)))
+				continue
+			}
+			sites = append(sites, cs)
+		}
+		for _, cs := range sites {
+			for _, sn := range cs.Snaps {
+				r.Sites++
+				// what this path knows about the function's own parameters must be refuted by every caller outside the
+				// timeout handler (with nothing known about them the demand is plain `false`)
+				var ps []*Formula
+				for k, v := range sn.F.m {
+					at := sn.F.atoms[k]
+					if at == nil || !hasParamTerm(at.A) && !hasParamTerm(at.B) || strings.Contains(at.S, "ctx.") || strings.Contains(at.S, "l:") {
+						continue
+					}
+					if v {
+						ps = append(ps, fAtom(at))
+					} else {
+						ps = append(ps, fNot(fAtom(at)))
+					}
+				}
+				need := fFalse
+				if len(ps) > 0 {
+					need = fNot(fAnd(ps...))
+				}
+				d := c.A.newDemand(c.apiList)
+				d.ExemptCall = func(call *Site, g *Formula) *Formula {
+					if inTH[call.Fn] {
+						return fTrue
+					}
+					return nil
+				}
+				if f := d.proveEntry(cs.Fn, need, 0); f == nil {
+					r.ok(fmt.Sprintf("%s@%s: reached only through the timeout handler (other callers cannot take this path)", cs.Fn.Name, c.Prog.Pos(cs.Node)))
+				} else {
+					r.fail(cs.Fn.Name+"/subscribe-outside-timeout via "+chainNames(f.Chain), c.Prog.Pos(cs.Node), "the node can subscribe for transactions outside the handling of a timeout (a notification then forces a proposal before the minimum block time has passed): "+f.String())
+				}
+			}
+		}
+	} else {
+		r.unresolved("timeout handler")
+	}
 	// cleared by the epoch writer
 	if ew := c.A.epochWriter; ew != nil {
 		r.Sites++
@@ -449,26 +523,43 @@ func ruleForce(c *RC) *RuleResult {
 		r.unresolved("timeout handler")
 		return r
 	}
-	for _, s := range c.A.callers[th] {
-		for _, sn := range s.Snaps {
-			r.Sites++
-			switch s.Fn {
-			case c.API["OnNewTransaction"]:
-				sub, _ := sn.F.value(mkAtom("b", fld("ctx.txSubscriptionOn", false), nil))
-				if sub && len(sn.Args) == 3 && sn.Args[0].S == "Timer.Height(cfg.Timer)" && sn.Args[1].S == "Timer.View(cfg.Timer)" && sn.Args[2].S == "true" {
-					r.ok("OnNewTransaction → timeout(Timer.Height(), Timer.View(), true) under txSubscriptionOn")
-				} else {
-					r.fail(s.Fn.Name+"/force", c.Prog.Pos(s.Node), "OnNewTransaction forces a timeout without an active subscription or with another epoch than the timer's")
+	// every call of the handler is judged from the API entry it comes from (forwarding wrappers walked inline)
+	seenCaller := map[*FuncInfo]bool{}
+	for _, api := range []*FuncInfo{c.API["OnNewTransaction"], c.API["OnTimeout"]} {
+		if api == nil {
+			continue
+		}
+		rec := c.inlineSites(api, false)
+		for _, g := range c.Prog.sortedFuncs() {
+			for _, s := range rec.FnSites[g] {
+				if s.Kind != "call" || s.Target != th {
+					continue
 				}
-			case c.API["OnTimeout"]:
-				if len(sn.Args) == 3 && sn.Args[0].K == KParam && sn.Args[1].K == KParam && sn.Args[2].S == "false" {
-					r.ok("OnTimeout → timeout(height, view, false)")
-				} else {
-					r.fail(s.Fn.Name+"/force", c.Prog.Pos(s.Node), "OnTimeout does not pass its arguments through with force=false")
+				seenCaller[s.Fn] = true
+				for _, sn := range s.Snaps {
+					r.Sites++
+					if api == c.API["OnNewTransaction"] {
+						sub, _ := sn.F.value(mkAtom("b", fld("ctx.txSubscriptionOn", false), nil))
+						if sub && len(sn.Args) == 3 && sn.Args[0].S == "Timer.Height(cfg.Timer)" && sn.Args[1].S == "Timer.View(cfg.Timer)" && sn.Args[2].S == "true" {
+							r.ok("OnNewTransaction → timeout(Timer.Height(), Timer.View(), true) under txSubscriptionOn")
+						} else {
+							r.fail(api.Name+"/force", c.Prog.Pos(s.Node), "OnNewTransaction forces a timeout without an active subscription or with another epoch than the timer's")
+						}
+					} else {
+						if len(sn.Args) == 3 && sn.Args[0].K == KParam && sn.Args[1].K == KParam && sn.Args[2].S == "false" {
+							r.ok("OnTimeout → timeout(height, view, false)")
+						} else {
+							r.fail(api.Name+"/force", c.Prog.Pos(s.Node), "OnTimeout does not pass its arguments through with force=false")
+						}
+					}
 				}
-			default:
-				r.fail(s.Fn.Name+"/timeout-caller", c.Prog.Pos(s.Node), "the timeout handler is called from an unexpected function")
 			}
+		}
+	}
+	for _, s := range c.A.callers[th] {
+		if !seenCaller[s.Fn] {
+			r.Sites++
+			r.fail(s.Fn.Name+"/timeout-caller", c.Prog.Pos(s.Node), "the timeout handler is called from a function that is not reached from OnTimeout / OnNewTransaction alone")
 		}
 	}
 	return r
